@@ -9,6 +9,10 @@
 //!                                  its acquisitions x every request Q on a second thread; all must
 //!                                  complete (stops at the first schedule that does not and says
 //!                                  where to continue)
+//!                                  order: life-cycle family pairs, then pairs sharing a channel slot, then
+//!                                  seeded random; shard=i/n runs every n-th schedule, focus=a,b adds requests
+//!                                  to the family, `plan` prints the sizes; r:k pauses after, r@k before the
+//!                                  k-th acquisition
 //!   locks race  r1:k1 r2:k2 .. rn  thread i runs request r_i and parks right after its k_i-th
 //!                                  acquisition; the last thread runs freely; then the parked ones
 //!                                  are resumed last-to-first.  Prints `@@RACE` with the observed
@@ -436,6 +440,17 @@ impl Sys {
         self.stack.push((block, prev));
     }
 
+    /// connect n empty blocks, writing the tracker to the store once at the end
+    fn connect_empty(&mut self, n: usize) {
+        for _ in 0..n {
+            let (block, proof, prev) = self.next_block(vec![], false);
+            self.node.get_tracker().add_block(block.header, proof).expect("add_block");
+            self.stack.push((block, prev));
+        }
+        let tracker = self.node.get_tracker();
+        self.node.get_persister().update_tracker(&self.node.get_id(), &tracker).expect("persist tracker");
+    }
+
     fn holder_commitment_tx(&self, c: &Chan, n: u64, to_h: u64, to_c: u64) -> Transaction {
         let ctx = channel_commitment(&self.nctx, &c.ctx, n, 1100, to_h, to_c, vec![], vec![]);
         ctx.tx.as_ref().unwrap().trust().built_transaction().transaction.clone()
@@ -743,9 +758,7 @@ fn make_req(sys: &mut Sys, kind: &str) -> Req {
         }),
         "heartbeat_prune_stub" => {
             // a stub older than the prune horizon (regtest: CHANNEL_STUB_PRUNE_BLOCKS + 100)
-            for _ in 0..210 {
-                sys.connect(vec![]);
-            }
+            sys.connect_empty(108);
             Box::new(move || {
                 let _ = node.get_heartbeat();
                 true
@@ -757,9 +770,7 @@ fn make_req(sys: &mut Sys, kind: &str) -> Req {
             let close = mutual_close_tx(&sys.a);
             sys.connect(vec![close]);
             node.forget_channel(&a_id).expect("forget");
-            for _ in 0..101 {
-                sys.connect(vec![]);
-            }
+            sys.connect_empty(101);
             Box::new(move || {
                 let _ = node.get_heartbeat();
                 true
